@@ -177,6 +177,7 @@ package bfe_tls
 //@   modifies *
 //@   ensures[resumed_session_exists] result0 ==> hs.sessionState != nil
 //@   ensures[never_above_the_offered_version] result0 ==> hs.sessionState.vers <= hs.clientHello.vers
+//@   ensures[version_still_enabled_by_the_server_configuration] result0 ==> hs.sessionState.vers >= (hs.c.config == nil || hs.c.config.MinVersion == 0 ? 768 : hs.c.config.MinVersion) && hs.sessionState.vers <= (hs.c.config == nil || hs.c.config.MaxVersion == 0 ? 771 : hs.c.config.MaxVersion)
 //@   ensures[suite_still_offered_by_the_client] result0 ==> (exists k int :: 0 <= k && k < len(hs.clientHello.cipherSuites) && hs.clientHello.cipherSuites[k] == hs.sessionState.cipherSuite)
 //@   ensures[suite_still_supported_by_the_server] result0 ==> hs.suite != nil && hs.suite.id == hs.sessionState.cipherSuite
 //@   ensures[suite_still_enabled_by_the_server_configuration] result0 && hs.c.config.CipherSuites != nil ==> (exists k int :: 0 <= k && k < len(hs.c.config.CipherSuites) && hs.c.config.CipherSuites[k] == hs.sessionState.cipherSuite)
